@@ -208,13 +208,14 @@ impl std::cmp::Eq for PlutusData {}
 // bytes, or the canonical encoding when there are none).
 impl Ord for PlutusData {
     fn cmp(&self, other: &Self) -> std::cmp::Ordering {
-        self.datum.cmp(&other.datum).then_with(|| {
-            if self.original_bytes == other.original_bytes {
+        // the order of the values is only a shortcut for the case that nothing has to be encoded: it also
+        // looks at encoding details of nested lists that do not always show in the bytes
+        match self.datum.cmp(&other.datum) {
+            std::cmp::Ordering::Equal if self.original_bytes == other.original_bytes => {
                 std::cmp::Ordering::Equal
-            } else {
-                self.to_bytes().cmp(&other.to_bytes())
             }
-        })
+            _ => self.to_bytes().cmp(&other.to_bytes()),
+        }
     }
 }
 
